@@ -71,7 +71,7 @@ let string_of_val = function None -> "X" | Some v -> string_of_int (int_of_n v)
 
 let string_of_action = function
   | AStart -> "start" | AEnd -> "end"
-  | ASusp w -> "susp " ^ string_of_wake w
+  | ASusp (w, _) -> "susp " ^ string_of_wake w
   | AWake (w, _) -> "wake " ^ string_of_wake w
   | AWatch vs -> String.concat " " ("V" :: List.map string_of_val vs)
   | ARead (s, v) -> Printf.sprintf "R%d=%s" (int_of_sig s) (string_of_val v)
